@@ -34,6 +34,14 @@ class Loc: pass              # placeholder for a class defined inside a function
 class Recv: pass             # placeholder for "the object the method is called on", passed again as an argument (call layer)
 
 
+class Unp:
+    """ a value that cannot be formatted: str(), repr() and format() of an instance raise (call layer / C08: building an error message
+    about such a value must not replace the PedanticException, and a conforming one must simply pass) """
+    def __str__(self): raise ValueError('Unp: no str')
+    def __repr__(self): raise ValueError('Unp: no repr')
+    def __format__(self, spec): raise ValueError('Unp: no format')
+
+
 class Text: pass             # a user class whose name is also exported by `typing` (typing.Text is str)
 class Counter: pass          # … and one that names a typing generic
 
@@ -79,7 +87,7 @@ CLASSES = [object, type, abc.ABCMeta, NoneType, bool, int, float, str, bytes, tu
            collections.abc.Sequence, collections.abc.Iterable, collections.abc.Collection, collections.abc.Container,
            collections.abc.Set, collections.abc.MutableSet, collections.abc.MutableSequence, collections.abc.Mapping,
            collections.abc.MutableMapping, collections.abc.Iterator, GeneratorType, ListIterator,
-           P, C1, C2, G, U, MI, L, TS, Pdup, NT1, NT2, NT3, DC, Text, Counter, collections.Counter, map, filter, SelfA, SelfB, Loc, Recv, NT0, NTSub, PF]
+           P, C1, C2, G, U, MI, L, TS, Pdup, NT1, NT2, NT3, DC, Text, Counter, collections.Counter, map, filter, SelfA, SelfB, Loc, Recv, NT0, NTSub, PF, Unp]
 IDX = {c: i for i, c in enumerate(CLASSES)}
 NAMES = {}
 
